@@ -266,6 +266,7 @@ func (h *Handler) Serve(ctx context.Context, conn *websocket.Conn) {
 	}
 	ctx, cancel := context.WithCancel(ctx)
 	var err error
+	var received chan struct{}
 	defer func() {
 		cancel()
 		if e := recover(); e != nil {
@@ -276,10 +277,19 @@ func (h *Handler) Serve(ctx context.Context, conn *websocket.Conn) {
 		}
 		h.onClose(conn)
 		conn.Close()
+		// the reader belongs to the server again once Serve returns
+		// (fasthttp recycles it), so wait until receive has left it.
+		if received != nil {
+			<-received
+		}
 	}()
 	queue := make(chan data)
 	errChan := make(chan error, 1)
-	go h.receive(ctx, conn, queue, errChan)
+	received = make(chan struct{})
+	go func() {
+		defer close(received)
+		h.receive(ctx, conn, queue, errChan)
+	}()
 	go h.send(ctx, conn, queue, errChan)
 	select {
 	case <-ctx.Done():
